@@ -246,6 +246,7 @@ def check_ghost(body, where):
                     if d == 0: break
                 j += 1
             st = st[j+1:]
+        st = re.sub(r'^\s*for\s*\(', '', st)
         for m in ASSIGN_RE.finditer(st):
             lhs = st[:m.start()]
             ids = [x for x in re.findall(r'[A-Za-z_]\w*', lhs) if x not in TYPEWORDS]
